@@ -5,7 +5,9 @@ pub mod c14;
 pub mod c18;
 pub mod chip126x;
 pub mod chip127x;
+pub mod exec14;
 pub mod rig;
+pub mod script;
 pub mod world;
 
 use simcore::*;
